@@ -224,3 +224,39 @@ def seam_offsets(p):
             for d in (-1, 0, 1):
                 out.add(m + d)
     return sorted(out)
+
+
+def big_periodic_file(cfg, seed):
+    """like big_file, but the content of each big chunk repeats with a period that divides the 32 KiB buffer (0xFF padding, a
+    256-byte ramp, zeros): a loop that goes on after a short read hashes what the previous pass left in its buffer, and
+    with such content that is exactly what the file would have held"""
+    key = ("bigp", cfg.name(), seed)
+    if key not in _zc:
+        ramp = bytes(range(256))
+        pcs = [b"\xff" * 70000, (ramp * 200)[:40000], bytes(65536 + 10), b"tail" * 25, (ramp * 400)[:90000]]
+        f, h, body = zckref.build_file(pcs, comp=cfg.comp, htype=cfg.fhash, ctype=cfg.chash, flags=cfg.flags(), dict_=cfg.dict, level=3)
+        _zc[key] = (f, pcs)
+    return _zc[key]
+
+
+def header_sized_file(target, seed, htype=1, ctype=3):
+    """reference-written uncompressed file whose header length (everything behind the lead) is exactly `target` bytes: many
+    one-byte chunks and one optional element whose data fills the remainder"""
+    key = ("hs", target, seed, htype, ctype)
+    if key not in _zc:
+        dsz = zckref.HASH_SIZES[ctype]
+        n = (target - 110) // (dsz + 2)
+        pcs = [bytes([1 + (i * 11 + seed) % 250]) for i in range(n)]
+        f, h, body = zckref.build_file(pcs, comp=0, htype=htype, ctype=ctype)
+        h.flags = 2
+        for k in range(0, 127):
+            h.optelems = [(1, b"o" * k)]
+            if len(h.body()) == target:
+                break
+        else:
+            raise core.HarnessError("cannot build a header of exactly %d bytes" % target)
+        f = h.build() + body
+        p = zckref.parse(f)
+        assert p.header_len - p.lead_len == target, (p.header_len - p.lead_len, target)
+        _zc[key] = f
+    return _zc[key]
